@@ -227,7 +227,7 @@ def run(res, tier, seed):
         if i not in res.coverage["invariants"]:
             res.coverage["invariants"].append(i)
 
-    cap = 300 if quick else 12000
+    cap = 300 if quick else 4000
     wd = tlc.workdir("c06r")
     cases, info = [], []
     try:
